@@ -206,26 +206,38 @@ func PlanCorr(c *Ctx, fc *FedCase) (what string, model, impl interface{}, err er
 	if c.Drv == nil || fc.Fed == nil || fc.Doc == nil || fc.Out.Plans == nil {
 		return "", nil, nil, nil
 	}
-	internal := InternalLocation(fc.Fed.Locations, fc.In.Spec.Order)
-	ans, err := c.Drv.Call(PlanModelReq(fc.Doc, fc.Fed.Locations, fc.In.Spec.Priorities, internal))
+	return PlanCorrRaw(c, fc.Doc, fc.Fed.Locations, fc.In.Spec.Priorities, fc.In.Spec.Order, fc.Out.Plans)
+}
+
+// PlanCorrRaw is PlanCorr for a parsed document, the routing table and priorities it was planned with, and the plans
+func PlanCorrRaw(c *Ctx, doc *ast.QueryDocument, locations gateway.FieldURLMap, priorities, services []string, plans gateway.QueryPlanList) (what string, model, impl interface{}, err error) {
+	if c.Drv == nil || doc == nil || plans == nil {
+		return "", nil, nil, nil
+	}
+	internal := InternalLocation(locations, services)
+	ans, err := c.Drv.Call(PlanModelReq(doc, locations, priorities, internal))
 	if err != nil {
 		return "", nil, nil, err
 	}
 	if e, bad := ans["err"]; bad {
-		return fmt.Sprintf("the planner produced plans; the model answers error %v (%v)", e, ans["what"]), ans, PlanText(fc.Out.Plans), nil
+		return fmt.Sprintf("the planner produced plans; the model answers error %v (%v)", e, ans["what"]), ans, PlanText(plans), nil
 	}
 	mplans, _ := ans["plans"].([]interface{})
-	if len(mplans) != len(fc.Out.Plans) {
-		return fmt.Sprintf("%d plans, the model has %d", len(fc.Out.Plans), len(mplans)), ans, PlanText(fc.Out.Plans), nil
+	if len(mplans) != len(plans) {
+		return fmt.Sprintf("%d plans, the model has %d", len(plans), len(mplans)), ans, PlanText(plans), nil
 	}
-	for i, pl := range fc.Out.Plans {
+	for i, pl := range plans {
 		if pl.RootStep == nil {
 			return "plan without a root step", mplans[i], nil, nil
 		}
 		real := sortThen(normalise(serRealStep(pl.RootStep, internal, true)))
 		mod := sortThen(normalise(mplans[i]))
 		if Canon(real) != Canon(mod) {
-			return fmt.Sprintf("plan %d (operation %q) differs from the planner model: %s", i, pl.Operation.Name, firstDiff(real, mod, "")), mod, real, nil
+			name := ""
+			if pl.Operation != nil {
+				name = pl.Operation.Name
+			}
+			return fmt.Sprintf("plan %d (operation %q) differs from the planner model: %s", i, name, firstDiff(real, mod, "")), mod, real, nil
 		}
 	}
 	return "", nil, nil, nil
